@@ -663,6 +663,28 @@ func checkCutoff(p *an.Prog, r *an.Run) {
 			if !inc {
 				bad = append(bad, "a disconnect call is spawned without being counted (its result is never awaited)")
 			}
+			// every cut-off is carried out: no return of disconnectPeers is reachable from its entry without passing the
+			// loop over the peers (a quiet period, a dedupe window or a rate limit in front of it drops the instruction
+			// for the hosts a client found since, and for a client cut off twice)
+			if h := loopHeader(g.Block()); h != nil && g.Parent() == dis {
+				// (an early return for an empty peer list has nobody to tell)
+				emptyRet := func(x ssa.Instruction) bool {
+					if !an.IsReturn(x) {
+						return false
+					}
+					for _, cr := range ctrlRels(x.Block()) {
+						if s0, isLen := an.LenOf(cr.L); isLen && len(dis.Params) > 3 && s0 == ssa.Value(dis.Params[3]) {
+							if k, isK := an.ConstInt(cr.R); isK && ((cr.Op == token.EQL && k == 0) || (cr.Op == token.LSS && k == 1) || (cr.Op == token.LEQ && k == 0)) {
+								return false
+							}
+						}
+					}
+					return true
+				}
+				if hit := an.PathAvoiding(dis, nil, func(x ssa.Instruction) bool { return x.Block() == h }, emptyRet, nil); hit != nil {
+					bad = append(bad, "disconnectPeers can return at "+p.Pos(hit.Pos())+" without having gone through its peers: some cut-offs are not carried out")
+				}
+			}
 			// every connected peer is told: after one call has been started the loop goes on to the next peer
 			if h := loopHeader(g.Block()); h != nil {
 				leaves := func(x ssa.Instruction) bool {
@@ -927,6 +949,22 @@ func runC02(p *an.Prog, r *an.Run, tier string) {
 		for _, c := range d0.CallsTo(isStoreMethod) {
 			if c != src {
 				bad = append(bad, "the node given to OnUpdate also derives from "+an.ObjString(an.CallObj(c)))
+			}
+		}
+		// the snapshot is the store's record as read: nothing assigns a field of it on the way to the balance manager
+		// (the host flag decides who pays; "only honour it while the host's connection is registered" bills a
+		// legitimate host after a pool restart or a dropped connection)
+		if ld, ok := oa[0].(*ssa.UnOp); ok && ld.Op == token.MUL {
+			if al, ok := ld.X.(*ssa.Alloc); ok {
+				an.AllInstrs(upd, func(in ssa.Instruction) {
+					st, ok := in.(*ssa.Store)
+					if !ok || st.Addr == ssa.Value(al) {
+						return
+					}
+					if root, path := an.RootPath(st.Addr); root == ssa.Value(al) && path != "" {
+						bad = append(bad, "the node snapshot given to OnUpdate is edited at "+p.Pos(st.Pos())+" ("+strings.TrimPrefix(path, ".")+"): the balance manager no longer sees the stored record")
+					}
+				})
 			}
 		}
 		// peers
